@@ -18,6 +18,8 @@ func init() {
 		Explain: "Static structural necessary conditions of 'every backup copy mirrors the primary' (asynchronous mode, equality of last-access stamps and behaviour after membership changes are NOT decided): " +
 			"(shipped-is-stored) in the synchronous and asynchronous write paths the entry whose Encode() is shipped to the backups is the very entry handed to putEntryOnFragment; " +
 			"(partial-update-shipping) when the primary applies a partial mutator (UpdateTTL, the Expire path) the entry shipped to the backups is rebuilt from the stored value: on the OnlyUpdateTTL edge every path to prepareEntry stores storage.Get(hkey).Value() into the request; " +
+			"(lookup-visits-every-table, shared with C09/C11/C12) the engine's in-place mutators (UpdateTTL, the Expire path of the primary) ask every table, so a partial update reaches the primary copy wherever it lives; " +
+			"(fragment-create-atomic) the lookup and the Store that create a DMap's fragment in a partition sit in one section of the partition's mutex released by defer, so two first writers cannot each create a fragment and leave an acknowledged Put in the orphan; " +
 			"(replica-stores-verbatim) the backup-side apply (DM.PUTENTRY) stores the parsed value through PutRaw on every success path, unchanged and unconditionally; " +
 			"(every-mutation-via-put-or-delete) storage mutators are called only by putEntryOnFragment (Put, UpdateTTL), putOnReplicaFragment (PutRaw), deleteOnCluster / deleteFromFragment (Delete) and fragmentMergeFunction (Put); putEntryOnFragment is called only by the replicating write paths and read repair; " +
 			"(replication-under-lock, lock-pairing) shared with C01: replication sends are ordered by the fragment write lock; " +
@@ -34,6 +36,8 @@ func init() {
 			replicationUnderLock(r, la)
 			c02DeletePropagates(r)
 			kvSingleLiveVersion(r)
+			kvLookupVisitsEveryTable(r)
+			fragmentCreateAtomic(r)
 		},
 	})
 }
@@ -73,11 +77,35 @@ func c04ShippedIsStored(r *core.Run) {
 		for _, e := range encs {
 			ev := e.(ssa.Value)
 			for _, g := range core.AllSSA(f) {
+				isShip := callTo("internal/protocol.NewPutEntry", dmapPkg+".(*DMap).asyncPutOnBackup")
 				core.Instrs(g, func(in ssa.Instruction) {
-					if c, ok := in.(ssa.CallInstruction); ok && (callTo("internal/protocol.NewPutEntry")(in) || callTo(dmapPkg + ".(*DMap).asyncPutOnBackup")(in)) {
+					c, ok := in.(ssa.CallInstruction)
+					if !ok {
+						return
+					}
+					if isShip(in) {
 						for _, a := range c.Common().Args {
 							if a == ev {
 								sent = true
+							}
+						}
+						return
+					}
+					// handed to a same-package helper that ships its parameter
+					h := r.P.ByObj[core.CalleeObj(c)]
+					if h == nil || h.SSA == nil || h.SSA == f || h.Pkg.PkgPath != f.Pkg.Pkg.Path() {
+						return
+					}
+					for ai, a := range c.Common().Args {
+						if a != ev || ai >= len(h.SSA.Params) {
+							continue
+						}
+						par := h.SSA.Params[ai]
+						for _, sc := range findInstrs(h.SSA, true, isShip) {
+							for _, sa := range sc.(ssa.CallInstruction).Common().Args {
+								if sa == ssa.Value(par) {
+									sent = true
+								}
 							}
 						}
 					}
